@@ -10,6 +10,7 @@ import (
 	"testing/synctest"
 	"time"
 
+	"github.com/lidofinance/dc4bc/client/services/node"
 	"github.com/lidofinance/dc4bc/client/types"
 
 	"verif/harness/world"
@@ -18,8 +19,8 @@ import (
 // reinitTrace builds the start state for the "finishing a reinitialisation" request of C14: node 0 has processed the
 // reinit message and holds the pending reinit operation; the machine's result (OperationProcessed + polynomial) is
 // recorded; the next board message from another participant is a signing proposal.
-func reinitTrace(t *testing.T, n, thr int) (*ceremonyTrace, error) {
-	key := fmt.Sprintf("reinit-%d-%d", n, thr)
+func reinitTrace(t *testing.T, n, thr int, adapt014 bool) (*ceremonyTrace, error) {
+	key := fmt.Sprintf("reinit-%d-%d-%v", n, thr, adapt014)
 	traceMu.Lock()
 	defer traceMu.Unlock()
 	if tr, ok := traceCache[key]; ok {
@@ -53,7 +54,16 @@ func reinitTrace(t *testing.T, n, thr int) (*ceremonyTrace, error) {
 			tr.Keys = append(tr.Keys, nd.KeyPair)
 			newKeys[w.Names[i]] = nd.KeyPair.Pub
 		}
-		re, err := types.GenerateReDKGMessage(o.Log, newKeys)
+		src := o.Log
+		if adapt014 {
+			// a log of version 0.1.4: no self-confirmations, no announced polynomial - the polynomial reaches the round
+			// only when the operator finishes the re-initialisation
+			src = to014(o.Log)
+		}
+		re, err := types.GenerateReDKGMessage(src, newKeys)
+		if err == nil && adapt014 {
+			re, err = node.GetAdaptedReDKG(re)
+		}
 		if err != nil {
 			terr = err
 			return
@@ -96,6 +106,18 @@ func reinitTrace(t *testing.T, n, thr int) (*ceremonyTrace, error) {
 		if err := w.ProposeBatch(1, tr.Round, map[string][]byte{"doc": []byte("proposed while node 0 finishes its reinit")}); err != nil {
 			terr = err
 			return
+		}
+		if adapt014 {
+			// ... and answers it, so that two messages of the round are waiting for node 0's next poll
+			for i := 1; i < n; i++ {
+				w.Poll(i, -1)
+			}
+			if ops, _ := w.Nodes[1].Operations(); len(ops) > 0 {
+				if _, err := w.Answer(1, ops[0]); err != nil {
+					terr = fmt.Errorf("participant 1 answering its own proposal: %w", err)
+					return
+				}
+			}
 		}
 		tr.Board = w.Board.All()
 		tr.Elapsed = time.Since(start) + time.Minute
